@@ -225,6 +225,8 @@ class AsyncioProxy:
         w.meta[id(task)] = Pseudo(label, "async", task, w.uid)
         w.keep.append(task)
         w.event("ensure_future")
+        with w.lock:
+            w.monitor.dispatched(label)
         return task
 
     async def wait(self, fs: Any, *, timeout: Any = None, return_when: str = ALL_COMPLETED) -> Any:
